@@ -89,6 +89,11 @@ pub fn jobs(seed: u64, thorough: bool, bad_only: bool) -> Vec<Job> {
         out.push(Job { label: "halfline-bigstep/f64".into(), raw, panic, own: OwnN::HalfLine, tol: 1e-7 });
         let (raw, panic) = run_chain::<B64, f64, _>(HalfLineN, vec![0.7, 1.5], 0.8, sd + 11, &[(4, 0)], Some(1e200));
         out.push(Job { label: "halfline-overflow/f64".into(), raw, panic, own: OwnN::HalfLine, tol: 1e-7 });
+        // uniform box written as a masked constant (no gradient entry in the graph), start-up heuristic and forced step
+        let (raw, panic) = run_chain::<B64, f64, _>(BoxN, vec![0.3, 0.6], 0.8, sd + 12, &[(steps.0, steps.1)], None);
+        out.push(Job { label: "box/f64".into(), raw, panic, own: OwnN::BoxU, tol: 1e-7 });
+        let (raw, panic) = run_chain::<B32, f32, _>(BoxN, vec![0.3, 0.6], 0.8, sd + 13, &[(6, 0)], Some(0.15));
+        out.push(Job { label: "box/f32".into(), raw, panic, own: OwnN::BoxU, tol: 5e-4 });
     }
     out
 }
